@@ -4,7 +4,7 @@ from orquesta import statuses as S
 from vt import defs
 from vt.choice import ReplayChooser
 from vt.env import Env, Policy, Violation, outcome, run_script
-from vt.harness import kernels
+from vt.harness import A5, kernels
 from vt.harness.common import control_slices, ob
 from vt.monitors import C09Pause, count
 
@@ -70,4 +70,5 @@ def obligations(tier):
         else:
             obs.append(o)
     obs.append(ob("C09", "twin.D04", "vt.harness.C09:pause_twin", {"did": "D04", "steps": 5, "twin": True}, timeout=120))
+    obs.append(A5.obligation("C09", tier))
     return obs
